@@ -305,7 +305,9 @@ def gen_update(rng, big=False):
     if big:
         n = pick(rng, [600, 700, 820, 1300] if not v6 else [230, 260, 500])
     if x < 0.6:
-        return [2, 0, fam, gen_entries(rng, v6, n, addpath), gen_nexthop(rng, v6), pick(rng, ATTRSETS)], addpath
+        # RFC 8950: an IPv4 route may have an IPv6 next hop (finding C19-3)
+        nh = gen_nexthop(rng, True if (not v6 and not big and rng.random() < 0.06) else v6)
+        return [2, 0, fam, gen_entries(rng, v6, n, addpath), nh, pick(rng, ATTRSETS)], addpath
     if x < 0.85:
         return [2, 1, fam, gen_entries(rng, v6, n, addpath)], addpath
     return [2, 2, fam], addpath
@@ -532,9 +534,20 @@ def open_expect(o):
         asn = as4[-1] if as4 else 0
     return [1, asn, o[2], o[3], o[4]]
 
+def known3(spec):
+    """finding C19-3: an IPv4-unicast announcement whose next hop is IPv6 (RFC 8950)"""
+    return spec[0] == 2 and spec[1] == 0 and spec[2] == IPV4 and bool(spec[4]) and len(spec[4][0]) in (16, 32)
+
+KNOWN3 = 'known C19-3: IPv4 route with an IPv6 next hop is embedded without any next hop'
+
 def check_update(spec, addpath, parsed_list):
     """the PDUs of one monitored UPDATE (one per frame) against what was monitored"""
     kind, fam = spec[1], spec[2]
+    if known3(spec):
+        # the listed symptom, and nothing else: NLRI present, no next hop, the parser's
+        # only complaint is the missing NEXT_HOP
+        if all(p[0] == 2 and p[1] and p[1][0][2] == [] and p[6] == 1 and not p[2] for p in parsed_list):
+            return KNOWN3
     if kind == 2:
         if len(parsed_list) != 1 or parsed_list[0][0] != 6 or parsed_list[0][1] != fam:
             return 'End-of-RIB for family %d parsed back as %s' % (fam, parsed_list)
@@ -621,7 +634,7 @@ class Prop:
     ]
 
     def __init__(self):
-        self._side = {}
+        self._side = []
 
     # ---- cases
     def case_to_json(self, c):
@@ -771,8 +784,8 @@ class Prop:
                 return None, err
             for slot, p in zip(where, pres):
                 slot[slot.index(None)] = p
-        for k in range(len(cases)):
-            self._side[json.dumps(cases[k], sort_keys=True)] = obs[k]
+        # what run_model needs from this run (reference encodings, dump timestamps), by position
+        self._side = list(obs)
         return obs, ''
 
     def _dval(self, c):
@@ -803,8 +816,8 @@ class Prop:
 
     def run_model(self, cases, tier):
         terms = []
-        for c in cases:
-            o = self._side.get(json.dumps(c, sort_keys=True))
+        for k, c in enumerate(cases):
+            o = self._side[k] if k < len(self._side) else None
             if o is None or o == [-1]:
                 # no reference encodings available (the implementation panicked): the model cannot be evaluated
                 terms.append('run_case [] []')
@@ -1007,7 +1020,7 @@ class Prop:
             views = read_mrt_stream(buf, len(c['pre']))
         except Bad as e:
             return 'the bytes are not a sequence of well-formed MRT records: %s' % e
-        vi = 0
+        vi, known = 0, None
         for mi, (m, bl) in enumerate(zip(c['msgs'], blobs)):
             what = 'message %d' % mi
             h, spec, ap = m
@@ -1025,11 +1038,13 @@ class Prop:
                 if (v['peer_as'], v['local_as'], v['ifidx'], v['peer_ip'], v['local_ip']) != (h[0], h[1], h[2], h[3], h[4]):
                     return '%s: BGP4MP header fields differ from the monitored ones' % what
             why = check_update(spec, ap, [p[0] for p in mparsed])
-            if why:
+            if why == KNOWN3:
+                known = KNOWN3
+            elif why:
                 return '%s: %s' % (what, why)
         if vi != len(views):
             return '%d MRT records in the stream beyond those monitored' % (len(views) - vi)
-        return None
+        return known
 
     def _oracle_td(self, c, obs):
         buf, side = obs[0], obs[1]
@@ -1101,7 +1116,7 @@ class Prop:
             views = read_bmp_stream(buf, len(c['pre']))
         except Bad as e:
             return 'the bytes are not a sequence of well-formed BMP messages: %s' % e
-        vi = 0
+        vi, known = 0, None
         for mi, (m, bl) in enumerate(zip(c['msgs'], blobs)):
             what = 'message %d' % mi
             if m[0] == 0:
@@ -1114,7 +1129,8 @@ class Prop:
                     why = check_peer(v['peer'], m[1], what)
                     if why: return why
                 why = check_update(m[2], m[3], [p[0] for p in mparsed])
-                if why: return '%s: %s' % (what, why)
+                if why == KNOWN3: known = KNOWN3
+                elif why: return '%s: %s' % (what, why)
                 continue
             if vi >= len(views):
                 return '%s: missing from the stream' % what
@@ -1150,9 +1166,14 @@ class Prop:
                         return '%s: %s OPEN parsed back as %s, monitored %s' % (what, nm, p, open_expect(o))
         if vi != len(views):
             return '%d BMP messages in the stream beyond those monitored' % (len(views) - vi)
-        return None
+        return known
 
     def in_known_class(self, kf, c, obs, why):
+        if kf['id'] == 'C19-3':
+            # decidable class of the input: some monitored announcement is IPv4 unicast with an IPv6
+            # next hop; and the only thing the oracle found wrong is the listed symptom
+            ups = [m[2] for m in c.get('msgs', []) if c['kind'] == 'bmp' and m[0] == 0] +                   [m[1] for m in c.get('msgs', []) if c['kind'] == 'mrt']
+            return why == KNOWN3 and any(known3(u) for u in ups)
         return False
 
     def nontrivial_key(self, c, obs):
